@@ -341,7 +341,14 @@ func (p *{{$TypeName}}) Write(oprot thrift.TProtocol) (err error) {
 	{{- if eq .Category "union"}}
 	var c int
 	if c = p.CountSetFields{{$TypeName}}(); c != 1 {
+		{{- if Features.KeepUnknownFields}}
+		// the member that is set may be one this version does not know
+		if !(c == 0 && len(p._unknownFields) > 0) {
+			goto CountSetFieldsError
+		}
+		{{- else}}
 		goto CountSetFieldsError
+		{{- end}}
 	}
 	{{- end}}
 	if err = oprot.WriteStructBegin("{{.Name}}"); err != nil {
